@@ -1246,6 +1246,48 @@ def o_toprim(ty):
             return ("some", -A)
         if gt_ is True or le_ is False or (lt_ is False and eq_ is False) or (ge_ is True and eq_ is False):
             return ("none",)
+        # comparisons against neighbouring constants (`n <= iN::MAX as uN`, then `n == MAX + 1`): collect what every tested
+        # relation says about |a| and decide from the resulting range
+        import re as _re
+
+        lo_, hi_, excl = 0, None, set()
+        limv = 1 << (bits - 1)
+        ra = _re.escape(repr(A))
+        for k_, v_ in c.st.bools.items():
+            m_ = _re.match(r"^(Lt|Le|Eq|Ne|Gt|Ge)\((%s),(\d+)\)$" % ra, k_)
+            flip = False
+            if not m_:
+                m_ = _re.match(r"^(Lt|Le|Eq|Ne|Gt|Ge)\((\d+),(%s)\)$" % ra, k_)
+                flip = True
+            if not m_ or v_ is None:
+                continue
+            op_ = m_.group(1)
+            kv = int(m_.group(2) if flip else m_.group(3))
+            if flip:
+                op_ = {"Lt": "Gt", "Le": "Ge", "Gt": "Lt", "Ge": "Le"}.get(op_, op_)
+            if not v_:
+                op_ = {"Lt": "Ge", "Le": "Gt", "Gt": "Le", "Ge": "Lt", "Eq": "Ne", "Ne": "Eq"}[op_]
+            if op_ == "Lt":
+                hi_ = kv - 1 if hi_ is None else min(hi_, kv - 1)
+            elif op_ == "Le":
+                hi_ = kv if hi_ is None else min(hi_, kv)
+            elif op_ == "Gt":
+                lo_ = max(lo_, kv + 1)
+            elif op_ == "Ge":
+                lo_ = max(lo_, kv)
+            elif op_ == "Eq":
+                lo_ = max(lo_, kv)
+                hi_ = kv if hi_ is None else min(hi_, kv)
+            elif op_ == "Ne":
+                excl.add(kv)
+        while lo_ in excl:
+            lo_ += 1
+        if hi_ is not None and hi_ < limv:
+            return ("some", -A)
+        if hi_ is not None and lo_ == hi_ == limv:
+            return ("some", -lim)
+        if lo_ > limv:
+            return ("none",)
         raise Mismatch("|a| was never compared with 2^%d" % (bits - 1))
 
     return f
